@@ -30,25 +30,14 @@ static void buildTree(const QString &base, const Val &tree)
     }
 }
 
-static Val run_fs(const Val &c)
+// one request through [handler]: ( status contentLength contentRange body closed )
+static Val oneRequest(FilesystemHandler &handler, const QString &base, QByteArray pathB, const Val &hdrs)
 {
-    QTemporaryDir tmp(QDir::tempPath() + "/hxfs-XXXXXX");
-    QString base = QDir(tmp.path()).canonicalPath();
-    buildTree(base, c.at(0));
-    QByteArray rootSpec = c.at(1).asBytes();
-    QString oldCwd = QDir::currentPath();
-    QString root;
-    if (rootSpec.startsWith("@CWD@/")) { QDir::setCurrent(base); root = QString::fromUtf8(rootSpec.mid(6)); }
-    else { rootSpec.replace("@BASE@", base.toUtf8()); root = QString::fromUtf8(rootSpec); }
-    QByteArray pathB = c.at(2).asBytes();
     pathB.replace("@BASE@", base.toUtf8());
     QString path = QString::fromUtf8(pathB);
-
-    Val log = Val::List();
     QByteArray wire;
     bool closed = false;
     {
-        FilesystemHandler handler(root);
         SimTcp *tcp = new SimTcp;
         tcp->onWrite = [&wire](const QByteArray &b) { wire += b; };
         tcp->onClose = [&closed]() { closed = true; };
@@ -56,7 +45,7 @@ static Val run_fs(const Val &c)
         QPointer<Socket> guard(s);
         QObject::connect(s, &Socket::headersParsed, [&handler, s, path]() { handler.route(s, path); });
         QByteArray head = "GET /x HTTP/1.1\r\n";
-        for (auto &kv : c.at(3).l) head += kv.at(0).asBytes() + ": " + kv.at(1).asBytes() + "\r\n";
+        for (auto &kv : hdrs.l) head += kv.at(0).asBytes() + ": " + kv.at(1).asBytes() + "\r\n";
         head += "\r\n";
         tcp->feed(head);
         for (int i = 0; i < 64 && !closed; ++i) QCoreApplication::processEvents();
@@ -64,7 +53,6 @@ static Val run_fs(const Val &c)
         QCoreApplication::sendPostedEvents(nullptr, QEvent::DeferredDelete);
         QCoreApplication::processEvents();
     }
-    QDir::setCurrent(oldCwd);
     int idx = wire.indexOf("\r\n\r\n");
     int status = -1;
     QByteArray cl, cr, body;
@@ -85,6 +73,32 @@ static Val run_fs(const Val &c)
     return Val::List({Val::Int(status), Val::Bytes(cl), Val::Bytes(cr), Val::Bytes(body), Val::Bool(closed)});
 }
 
+// "fs": ( tree root path headers .. ) one request;  "fsm": ( tree root ((path headers)..) .. ) several requests through ONE handler
+static Val runFs(const Val &c, bool multi)
+{
+    QTemporaryDir tmp(QDir::tempPath() + "/hxfs-XXXXXX");
+    QString base = QDir(tmp.path()).canonicalPath();
+    buildTree(base, c.at(0));
+    QByteArray rootSpec = c.at(1).asBytes();
+    QString oldCwd = QDir::currentPath();
+    QString root;
+    if (rootSpec.startsWith("@CWD@/")) { QDir::setCurrent(base); root = QString::fromUtf8(rootSpec.mid(6)); }
+    else { rootSpec.replace("@BASE@", base.toUtf8()); root = QString::fromUtf8(rootSpec); }
+    Val out;
+    {
+        FilesystemHandler handler(root);
+        if (!multi) out = oneRequest(handler, base, c.at(2).asBytes(), c.at(3));
+        else {
+            out = Val::List();
+            for (auto &rq : c.at(2).l) out.add(oneRequest(handler, base, rq.at(0).asBytes(), rq.at(1)));
+        }
+    }
+    QDir::setCurrent(oldCwd);
+    return out;
+}
+static Val run_fs(const Val &c) { return runFs(c, false); }
+static Val run_fsm(const Val &c) { return runFs(c, true); }
+
 // oracle: (root path) -> (absoluteFilePath relativeFilePath cleanPath(path) cleanPath(absolutePath(root)))  with @BASE@ symbolic
 static Val run_pathprobe(const Val &c)
 {
@@ -100,5 +114,6 @@ static Val run_pathprobe(const Val &c)
 void reg_fs()
 {
     registerFamily("fs", run_fs);
+    registerFamily("fsm", run_fsm);
     registerFamily("pathprobe", run_pathprobe);
 }
